@@ -129,8 +129,9 @@ func (m *Map[K, V]) Replace(old, new K, v V) {
 		m.items = append(m.items, Tuple[K, V]{})
 	}
 
-	// If the key changed, there's some tidyup...
-	if old != new {
+	// If the key changed (or the item was just appended, so is not in the index
+	// yet), there's some tidyup...
+	if old != new || !exists {
 		// If "new" already exists in the map, then delete it first. The intent
 		// of Replace is to put the item where "old" is but under "new", so if
 		// "new" already exists somewhere else, adding it where "old" is would
